@@ -24,6 +24,7 @@ def check(ctx, rep):
     rep.rule("R15b", "every fixed block name has a renderer; block list adds one block per extended attribute", floor=4)
     rep.rule("R15c", "length prefix agrees with the body (shared with C04/R04b)", floor=5)
     rep.rule("R15d", "attribute content lines carry the one-space prefix (shared with C13/R13d)", floor=1)
+    rep.rule("R15f", "item information is computed from the files of this request alone: no module- or class-level state written by the Gopher+ renderer or the entry population", floor=1)
     rep.rule("R15e", "sidecar reader: per configured extension, text lines right-stripped and newline-joined into the block", floor=1)
     gp = ctx.cls("protocols.gopherp.GopherPlusProtocol")
     plain = ctx.cls("protocols.rfc1436.GopherProtocol")
@@ -104,6 +105,20 @@ def check(ctx, rep):
         if o.rule == "R13d":
             n += 1
             rep.add("R15d", o.instance, o.ok, o.where, o.detail, key=o.key.replace("R13d", "R15d"), nontrivial=o.nontrivial)
+
+    # ------------------------------------------------------------------ R15f
+    from ..effects import Effects
+    from .c14 import shared_state_obligations
+
+    ge0 = ctx.cls("gopherentry.GopherEntry")
+    info_funcs = set()
+    for C in ([ge0] if ge0 else []) + list(prog.subclasses(gp)):
+        for c in prog.mro(C):
+            info_funcs.update(c.methods.values())
+    n_before = len(rep.obligations)
+    shared_state_obligations(ctx, rep, "R15f", Effects(prog, ctx.resolver), info_funcs, sequential=True)
+    if len(rep.obligations) == n_before:
+        rep.ok("R15f", "no shared state written while item information is built", "pygopherd/gopherentry.py")
 
     # ------------------------------------------------------------------ R15e
     ge = ctx.cls("gopherentry.GopherEntry")
